@@ -243,6 +243,18 @@ func getters(c *girc.Client, r *rand.Rand) {
 // the clean-up of Connect; that is a stall with a bound, not the deadlock we hunt.
 var sendOK int32
 
+// connq hammers the connection queries (Client.mu / ircConn.mu), so that some of them are in
+// flight whenever a connection is set up or torn down.
+func connq(c *girc.Client, r *rand.Rand) {
+	up, err := c.Uptime()
+	since, err2 := c.ConnSince()
+	use(up, err, since, err2, c.IsConnected(), c.Latency())
+	if r.Intn(4) == 0 {
+		st, err3 := c.TLSConnectionState()
+		use(st, err3)
+	}
+}
+
 func senders(c *girc.Client, r *rand.Rand) {
 	if atomic.LoadInt32(&sendOK) == 0 {
 		time.Sleep(200 * time.Microsecond)
@@ -347,7 +359,7 @@ func main() {
 	phase.Store("start")
 	finished := make(chan struct{})
 	// progress stamps (unix nanoseconds): one per worker, one for the driver
-	nworkers := *workers * 4
+	nworkers := *workers * 5
 	stamps := make([]int64, nworkers+1)
 	kinds := make([]string, nworkers+1)
 	now := func() int64 { return time.Now().UnixNano() }
@@ -394,9 +406,9 @@ func main() {
 	var wg sync.WaitGroup
 	widx := 0
 	for g := 0; g < *workers; g++ {
-		for k, fn := range []func(*girc.Client, *rand.Rand){getters, getters, senders, registrars} {
+		for k, fn := range []func(*girc.Client, *rand.Rand){getters, getters, senders, registrars, connq} {
 			wg.Add(1)
-			kinds[widx] = []string{"getters", "getters", "senders", "registrars"}[k]
+			kinds[widx] = []string{"getters", "getters", "senders", "registrars", "connq"}[k]
 			go func(fn func(*girc.Client, *rand.Rand), sd int64, me int) {
 				defer wg.Done()
 				rr := rand.New(rand.NewSource(sd))
